@@ -94,3 +94,7 @@ func Implies(a, b bool) bool { return !a || b }
 
 // UFBytes64 is an injective uninterpreted function from strings to 8 bytes (a collision-free hash).
 func UFBytes64(fn string, s string) []byte { return make([]byte, 8) }
+
+// OtherThreadHolds marks a *sync.Mutex as currently held by another thread that will release it:
+// Lock then waits (and succeeds), TryLock fails.
+func OtherThreadHolds(mutex interface{}) {}
